@@ -329,6 +329,9 @@ type killedT struct{}
 
 //go:norace
 func (s *Sim) park(t *Task, kind OpKind, obj Waitable) {
+	if t.kill {
+		return // a reaped task is unwinding through its deferred calls: no more scheduling points
+	}
 	raceDisable()
 	t.op = kind
 	t.obj = obj
